@@ -7,6 +7,8 @@
 // rows on which the condition is true, in input order; names = alias, column name, p<i>; `*` = all columns in definition order.
 // Grid: every pair (a, b) over {NULL, 0, 1, -1, 2, i64::MAX, i64::MIN} x s in {'x', NULL} as one line each and as one file
 // of all 98 lines x 38 projections / conditions (NULL list elements); a column called input; timestamp comparisons by instant with a text literal on either side; 6 functions whose arguments are columns, over a 4-row file.
+// Also: REAL comparison flags for every pair of 12 REAL values (signed zeros, adjacent doubles); CASE conditions without a
+// value; 1-based array subscripts from a column and as literals (0, negative, beyond the end, 64-bit ends).
 include!("verif_grid_common.rs");
 include!("verif_grid_qcommon.rs");
 use serde_json::{json, Value as J};
@@ -117,6 +119,23 @@ fn verif_grid() {
                     other => Err(format!("{:?}", other)) }
             });
         } }
+    }
+    {
+        let def = "CREATE TABLE t(line = '^a=([0-9]+),([0-9]+),([0-9]+) i=(-?[0-9]+)$', line[1], line[2], line[3] => xs INT[], line[4] => i INT);";
+        for (k, idx) in [0i64, 1, 2, 3, 4, -1, -2, i64::MAX, i64::MIN, i64::MIN + 1].iter().enumerate() {
+            let line = format!("a=10,20,30 i={}", idx);
+            let want = match *idx { 1 => "10", 2 => "20", 3 => "30", _ => "null" };
+            g.case(&format!("subscript-column-{}", k), move || match q(def, "SELECT xs[i] AS x FROM t", &[&line]) {
+                Outcome::Lines(l, _) => if l == vec![format!("{{\"x\":{}}}", want)] { Ok(()) } else { Err(format!("xs[i] with xs = [10, 20, 30] and i = {} printed {:?}; subscripts are 1-based and out of range is NULL: {}", idx, l, want)) },
+                other => Err(format!("xs[i] with i = {}: {:?}", idx, other)) });
+            if *idx >= -2 && *idx <= 4 {
+                let line = "a=10,20,30 i=0".to_owned();
+                let q1 = if *idx < 0 { format!("SELECT xs[0 - {}] AS x FROM t", -idx) } else { format!("SELECT xs[{}] AS x FROM t", idx) };
+                g.case(&format!("subscript-literal-{}", k), move || match q(def, &q1, &[&line]) {
+                    Outcome::Lines(l, _) => if l == vec![format!("{{\"x\":{}}}", want)] { Ok(()) } else { Err(format!("{} with xs = [10, 20, 30] printed {:?}, expected {}", q1, l, want)) },
+                    other => Err(format!("{}: {:?}", q1, other)) });
+            }
+        }
     }
     // `input` denotes the raw line, also when the table has a column of that name
     g.case("input-column-name-clash", || {
